@@ -179,6 +179,7 @@ func (p *Program) Explore(entry string, ex *Explorer) (err error) {
 		sched = newScheduler()
 		syncSt = newSyncState()
 		mfs = newMemFS()
+		race = newRaceState()
 		defer func() {
 			leaked := sched.killAll()
 			_ = leaked
